@@ -254,8 +254,18 @@ class AliasMixin:
             *args, **{self._resolve_alias(k): v for k, v in kwargs.items()}
         )
 
-        # TODO: Decide whether to check for aliases that are overwriting named
-        #       model variables
+        # An alias must not be the name of a model variable or of an attribute
+        # of the object: reads and writes through it would go different ways
+        clashes = sorted(
+            k
+            for k in self.aliases
+            if k in self.__dict__['index'] or k in self.__dict__ or hasattr(type(self), k)
+        )
+        if clashes:
+            raise InitialisationError(
+                f"Aliases named like variables or attributes of the model: {', '.join(clashes)}"
+            )
+
         # TODO: Decide whether to check that all aliases point to a defined
         #       model variable
 
